@@ -70,14 +70,14 @@ PROPS = {
     ),
     "C02": dict(
         components=["FEMSolve", "LocalStiffTransformed", "Demux", "MuxForces", "VonMisesWingbox", "FuelLoads", "ConvertVelocity", "RotationalVelocity", "PanelForces"],
-        extra_suites=[suites.beam_pipeline_suite, suites.aero_pipeline_suite],
+        extra_suites=[suites.beam_pipeline_suite, suites.aero_pipeline_suite, suites.aerostruct_pipeline_suite],
         oracle_cases=dict(quick=3, thorough=15),
         assumptions=["OpenMDAO's assembly of total derivatives and the convergence of its iterative linear solvers are trusted, not modelled",
                      "component partials are covered by C01"],
     ),
     "C12": dict(
         components=["LoadTransfer", "DisplacementTransfer", "TransformationMatrix", "FEMSolve"],
-        extra_suites=[suites.beam_pipeline_suite, suites.aero_pipeline_suite],
+        extra_suites=[suites.beam_pipeline_suite, suites.aero_pipeline_suite, suites.aerostruct_pipeline_suite],
         oracle_cases=dict(quick=3, thorough=15),
         assumptions=["convergence of OpenMDAO's nonlinear solvers is runtime behaviour; uniqueness of the consistent state is a hypothesis",
                      "the rigid limit needs bounded aerodynamic loads (hypothesis)"],
@@ -125,8 +125,10 @@ PROPS = {
     ),
     "C09": dict(
         components=["PGRotateTo", "PGRotateFrom", "PGScaleFrom", "PGScaleToGeom", "PGScaleToNormals"],
-        assumptions=["the wiring of compressible_states.py is tied by the real-code oracle (PG specification around the real "
-                     "incompressible solver), not by a model pipeline", "continuity of the linear solve in its data is assumed"],
+        extra_suites=[suites.compressible_pipeline_suite],
+        assumptions=["the wiring of compressible_states.py is tied twice: by the model pipeline CompressibleStates (compared with the real "
+                     "AeroPoint(compressible=True) without rotation rates) and by the real-code oracle (PG specification around the real "
+                     "incompressible solver)", "continuity of the linear solve in its data is assumed"],
     ),
     "C19": dict(
         components=["Demux", "MuxForces", "Horseshoe", "CollocationPoints"],
